@@ -92,7 +92,7 @@ func (a *ApplicationDefined) Unmarshal(rawPacket []byte) error {
 		return errWrongType
 	}
 
-	if int(header.Length+1)*4 != len(rawPacket) {
+	if (int(header.Length)+1)*4 != len(rawPacket) {
 		return errAppDefinedInvalidLength
 	}
 
